@@ -174,3 +174,33 @@ Proof.
     rewrite filter_flat_map'. apply flat_map_ext. intros f. rewrite !pkgo_file_spec.
     apply (exclude_dedup (excluded S) (x_suppressed ops) "PKGO01"). apply keyed_code_flat_map. intros n. apply pkgo_cands_keyed.
 Qed.
+
+(* ---- input conditions of the @implements theorems, as booleans evaluated on every serialised package ---- *)
+Fixpoint nodup_ids (l : list (string * string)) : bool :=
+  match l with
+  | [] => true
+  | x :: r => negb (existsb (fun y => String.eqb (fst x) (fst y) && String.eqb (snd x) (snd y)) r) && nodup_ids r
+  end.
+
+Lemma nodup_ids_sound l : nodup_ids l = true -> NoDup l.
+Proof.
+  induction l as [|x r IH]; intros H; [constructor|]. cbn [nodup_ids] in H. apply andb_true_iff in H. destruct H as [H1 H2].
+  constructor; [|apply IH; exact H2]. intros Hin. apply negb_true_iff in H1.
+  assert (existsb (fun y => String.eqb (fst x) (fst y) && String.eqb (snd x) (snd y)) r = true).
+  { apply existsb_exists. exists x. split; [exact Hin|]. rewrite !String.eqb_refl. reflexivity. }
+  congruence.
+Qed.
+
+Definition x_impl_inputs_ok (p : package) : bool :=
+  forallb (fun td => nodup_ids (map tm_id (td_methods td))) (tt_types (p_types p)) &&
+  forallb (fun f => forallb (fun i => negb (String.eqb (i_pkgname i) "")) (f_imports f)) (p_files p).
+
+Theorem x_impl_inputs_ok_sound p :
+  x_impl_inputs_ok p = true ->
+  (forall td, In td (tt_types (p_types p)) -> NoDup (map tm_id (td_methods td))) /\
+  (forall f i, In f (p_files p) -> In i (f_imports f) -> i_pkgname i <> "").
+Proof.
+  unfold x_impl_inputs_ok. intros H. apply andb_true_iff in H. destruct H as [H1 H2]. rewrite forallb_forall in H1, H2. split.
+  - intros td Htd. apply nodup_ids_sound. exact (H1 td Htd).
+  - intros f i Hf Hi E. specialize (H2 f Hf). rewrite forallb_forall in H2. specialize (H2 i Hi). rewrite E in H2. discriminate.
+Qed.
